@@ -3,7 +3,7 @@
    runtime behaviour outside any theorem (known finding F17). *)
 From Coq Require Import List Arith Reals.
 From LaPyV Require Import Base.Scalar Base.Vec3 Base.ListAux Base.Sparse Model.TetMesh Model.TriaAdj Model.Fem
-  Model.DiffGeo Model.Poisson Model.Geodesic Proofs.PoissonP Proofs.GeodesicP.
+  Model.DiffGeo Model.Poisson Model.Geodesic Proofs.SparseP Proofs.FemTriaP Proofs.DiffGeoP Proofs.PoissonP Proofs.FemTetP Proofs.GeodesicP Proofs.GeodesicAffineP Proofs.TetDivP.
 Import ListNotations.
 Open Scope R_scope.
 
@@ -38,3 +38,39 @@ Print Assumptions C08_rotated_function_pinned_and_solves_system.
 Theorem C08_min_shift : forall l, l <> [] -> Forall (fun x => 0 <= x) (shift_min Rops l) /\ In 0 (shift_min Rops l).
 Proof. exact shift_min_spec. Qed.
 Print Assumptions C08_min_shift.
+
+(* ---- exactness for affine functions on flat triangle meshes.  If f = a.x + b0 at the vertices of every triangle and the
+   direction a lies in the plane of every triangle, the normalised gradient field is, triangle by triangle, the gradient of the
+   unit-slope affine function u = (a/|a|).x ... *)
+Theorem C08_normalised_gradient_of_affine_function_is_gradient_of_unit_slope_function : forall v ts a b0 (f : nat -> R),
+  a <> (0, 0, 0) -> Forall (tri_guard_off v) ts -> Forall (affine_on v a b0 f) ts -> Forall (in_plane v a) ts ->
+  map (unit_or_zero Rops) (map (tria_grad1 Rops v f) ts)
+  = map (tria_grad1 Rops v (fun i => dotR (unit_dir a) (getv Rops v i))) ts.
+Proof. exact geodesic_field_is_gradient_of_unit_slope. Qed.
+Print Assumptions C08_normalised_gradient_of_affine_function_is_gradient_of_unit_slope_function.
+
+(* ... so the right-hand side handed to the solver is -A u (tested against every phi): the unit-slope affine function decreasing
+   along grad f, -u + const, satisfies the solved system A g = div(grad f / |grad f|) exactly *)
+Theorem C08_affine_on_flat_mesh_right_hand_side_is_minus_A_u : forall v ts a b0 (fl : list R) (phi : nat -> R),
+  a <> (0, 0, 0) -> Forall (tri_guard_off v) ts -> tria_nondeg v ts ->
+  Forall (affine_on v a b0 (vfun Rops fl)) ts -> Forall (in_plane v a) ts ->
+  Rsum (fun k => phi k * nth k (geodesic_rhs_tria Rops v ts fl) 0) (iota (div_len (tri_flat ts)))
+  = - bil phi (fem_tria_A Rops v ts) (fun i => dotR (unit_dir a) (getv Rops v i)).
+Proof. exact geodesic_rhs_of_affine_on_flat_mesh. Qed.
+Print Assumptions C08_affine_on_flat_mesh_right_hand_side_is_minus_A_u.
+
+(* ---- the same on ANY tetrahedral mesh, whatever the orientation of its elements: for f = a.x + b0 the normalised gradient
+   field is the gradient of u = (a/|a|).x and the right-hand side is -A u *)
+Theorem C08_tet_normalised_gradient_of_affine_function : forall v ts a b0 (f : nat -> R),
+  a <> (0, 0, 0) -> Forall (tet_guard_off v) ts -> Forall (affine_on_tet v a b0 f) ts ->
+  map (unit_or_zero Rops) (map (tet_grad1 Rops v f) ts)
+  = map (tet_grad1 Rops v (fun i => dotR (unit_dir a) (getv Rops v i))) ts.
+Proof. exact tet_geodesic_field_is_gradient_of_unit_slope. Qed.
+Print Assumptions C08_tet_normalised_gradient_of_affine_function.
+
+Theorem C08_tet_affine_right_hand_side_is_minus_A_u : forall v ts a b0 (fl : list R) (phi : nat -> R),
+  a <> (0, 0, 0) -> Forall (tet_guard_off v) ts -> tet_nondeg v ts -> Forall (affine_on_tet v a b0 (vfun Rops fl)) ts ->
+  Rsum (fun k => phi k * nth k (geodesic_rhs_tet Rops v ts fl) 0) (iota (div_len (tet_flat ts)))
+  = - bil phi (fem_tet_A Rops v ts) (fun i => dotR (unit_dir a) (getv Rops v i)).
+Proof. exact tet_geodesic_rhs_of_affine. Qed.
+Print Assumptions C08_tet_affine_right_hand_side_is_minus_A_u.
